@@ -26,7 +26,53 @@ NT_FLOOR = 0.2
 
 
 @st.composite
+def failed_call_plan_st(draw, tier):
+    """A prior history in which a training call failed part-way: a linear policy with l2_lambda=0 (a valid value) and
+    one feature, a batch that is regular for an arm listed early and singular (all-zero contexts) for a later arm
+    that has no data yet - numpy raises LinAlgError after the earlier arm was updated. Whatever that leaves behind,
+    fit(D) must discard it."""
+    kind, arms = draw(gen.arms_st(("int", "str"), 2, 4))
+    name = draw(st.sampled_from(["LinGreedy", "LinUCB"]))
+    params = {"l2_lambda": 0, "scale": False}
+    params.update({"epsilon": 0} if name == "LinGreedy" else {"alpha": draw(st.sampled_from([0, 1, 0.5]))})
+    cfg = {"arms": arms, "lp": [name, params], "np": None, "seed": draw(st.integers(0, 2 ** 20)), "n_jobs": 1,
+           "backend": None, "arm_kind": kind}
+    nz = st.sampled_from([1, 2, -1, 3, -2])
+    rw = st.integers(-5, 5)
+
+    def good(arm_subset, n):
+        dec = [draw(st.sampled_from(arm_subset)) for _ in range(n)]
+        return dec, [draw(rw) for _ in dec], [[draw(nz)] for _ in dec]
+
+    prior = []
+    i = draw(st.integers(0, len(arms) - 2))
+    j = draw(st.integers(i + 1, len(arms) - 1))
+    if draw(st.booleans()):
+        prior.append(["fit"] + list(good([arms[i]], draw(st.integers(1, 4)))))
+    d1, r1, c1 = good([arms[i]], draw(st.integers(1, 3)))
+    bad = [draw(st.sampled_from(["fit", "partial_fit"])), d1 + [arms[j]] * 2, r1 + [draw(rw), draw(rw)], c1 + [[0], [0]]]
+    prior.append(bad)
+    may_fail = [len(prior) - 1]
+    for _ in range(draw(st.integers(0, 2))):
+        prior.append([draw(st.sampled_from(["predict", "predict_expectations"])), [[draw(nz)]]])
+        may_fail.append(len(prior) - 1)       # (nothing may have been trained yet)
+    subset = draw(st.lists(st.sampled_from(arms), min_size=1, max_size=len(arms), unique=True))
+    refit = ["fit"] + list(good(subset, draw(st.integers(1, 6))))
+    cont = []
+    for _ in range(draw(st.integers(1, 4))):
+        if draw(st.integers(0, 2)) == 0:
+            cont.append(["partial_fit"] + list(good(subset, draw(st.integers(1, 3)))))
+        else:
+            cont.append([draw(st.sampled_from(["predict", "predict_expectations"])),
+                         [[draw(nz)] for _ in range(draw(st.integers(1, 3)))]])
+    return {"config": cfg, "prior": prior, "refit": refit, "cont": cont, "old_rows": 0, "buffer_from": None,
+            "prior_may_fail": may_fail}
+
+
+@st.composite
 def plan_st(draw, tier):
+    if draw(st.integers(0, 11)) == 0:
+        return draw(failed_call_plan_st(tier))
     cfg = draw(gen.config_st(metrics=gen.SAFE_METRICS, arm_kinds=("int", "str", "float", "mix"), max_arms=4, with_binarizer=True, scale_ok=True,
                              defaults_ok=True))
     h = gen.History(draw, cfg, max_rows=8)
@@ -74,7 +120,13 @@ def evaluate(plan, ctx):
     b = ops.build(cfg)
     j = plan.get("buffer_from")
     bufs = None
-    if j is None:
+    if plan.get("prior_may_fail"):
+        for i, op in enumerate(plan["prior"]):
+            o = ops.apply_op(b, op)
+            if ops.is_exc(o) and i not in plan["prior_may_fail"]:
+                raise Violation("unexpected_exception", "prior history op %d %s raised %s" % (i, op[0], ops.short(o)),
+                                bucket="unexpected_exception:%s:%s" % (op[0], o[1]))
+    elif j is None:
         twin.must_succeed(b, plan["prior"], "prior history")
     else:
         twin.must_succeed(b, plan["prior"][:j], "prior history")
@@ -121,6 +173,9 @@ def evaluate(plan, ctx):
         ev.append("D_empty")
     if bufs is not None:
         ev.append("D_in_reused_buffers")
+    if plan.get("prior_may_fail"):
+        ev.append("prior_training_call_failed_part_way")
+        nt = True
     if len(plan["refit"][1]) < plan["old_rows"]:
         ev.append("D_shorter_than_history")
     if plan["refit"][3] is not None and not empty and plan["prior"] and any(
